@@ -4,7 +4,13 @@ import (
 	"github.com/jsightapi/jsight-schema-core/zzverif"
 )
 
-func ssSym1(name string) string { return string([]byte{zzverif.OneOf(name, "abcdef")}) }
+// ssSym1: a one-letter string, or the empty string (a value like any other).
+func ssSym1(name string) string {
+	if zzverif.Bool(name + ".empty") {
+		return ""
+	}
+	return string([]byte{zzverif.OneOf(name, "abcdef")})
+}
 
 // VerifC19_StringSet: Add from an arbitrary valid state of up to N distinct
 // values: Len, Has and Data() equal those of an insertion-ordered set.
